@@ -110,8 +110,9 @@ class Sim:
         self.steps = 0
         self.switches = 0
         self.decisions = 0
-        self.overrides = None      # replay: {decision_no: choice}
-        self.recorded = {}         # record: {decision_no: choice}
+        self.overrides = None      # replay: {decision_no: thread idx, "y<yield_no>": stall seconds}
+        self.recorded = {}         # record: same shape
+        self.yields = 0
         self.start_time = clock.now
         self.harness_time = 0.0
         self.last_progress = clock.now
@@ -261,7 +262,7 @@ class Sim:
         self.decisions += 1
         if self.overrides is not None:
             ch = self.overrides.get(n)
-            if ch is not None and not isinstance(ch, list):
+            if ch is not None:
                 for t in cands:
                     if t.idx == ch:
                         return t
@@ -307,17 +308,16 @@ class Sim:
         """A scheduling point at which `cur` stays runnable."""
         if self.killed:
             raise SimKilled
+        self.yields += 1
         if self.overrides is not None:
-            ch = self.overrides.get(self.decisions)
-            if isinstance(ch, list):  # injected stall
-                self.decisions += 1
-                self._sleep(cur, float(ch[1]), True, "stall")
+            d = self.overrides.get(f"y{self.yields}")
+            if d is not None:  # injected stall
+                self._sleep(cur, float(d), True, "stall")
                 return
         else:
             d = self.policy.stall(self, cur, kind)
             if d:
-                self.recorded[self.decisions] = ["s", d]
-                self.decisions += 1
+                self.recorded[f"y{self.yields}"] = d
                 self._sleep(cur, d, True, "stall")
                 return
         self._switch(cur, kind)
